@@ -50,7 +50,7 @@ class Hub:
         self.puml_truth: dict[str, tuple] = {}
         self.draw_calls: list = []
         self.scan_events: list = []
-        self.judges = {"C01", "C03", "C05", "C06", "C07", "C15", "C17", "SCAN"}
+        self.judges = {"C01", "C03", "C05", "C06", "C07", "C13", "C15", "C16", "C17", "SCAN"}
         self.depth = 0
         self.tag = None  # label set by a driver so that offline checkers can find their operands in the log
 
@@ -165,6 +165,7 @@ def snapshot_rule(rule) -> dict:
 # ---------------------------------------------------------------------------------
 
 TRACE_ATTR = "_pta_trace"
+POST_HOOKS: dict = {}  # class -> [callable(obj, entry)] run after every top-level fluent call (returned or raised)
 
 
 def trace_of(obj) -> list:
@@ -183,6 +184,14 @@ def _plain(a):
     return f"<{type(a).__name__}>"
 
 
+def _run_hooks(cls, obj, entry) -> None:
+    for h in POST_HOOKS.get(cls, ()):
+        try:
+            h(obj, entry)
+        except Exception as e:  # noqa: BLE001
+            HUB.acc.mark_inconclusive(f"trace hook crashed: {type(e).__name__}: {e}")
+
+
 def _wrap_fluent(cls, name):
     orig = cls.__dict__[name]
 
@@ -198,10 +207,13 @@ def _wrap_fluent(cls, name):
             r = orig(self, *args, **kwargs)
         except BaseException as e:
             entry[2] = type(e).__name__
+            d["_pta_in"] = 0
+            _run_hooks(cls, self, entry)
             raise
         finally:
             d["_pta_in"] = 0
         entry[2] = "ok"
+        _run_hooks(cls, self, entry)
         return r
 
     wrapper._pta_orig = orig
@@ -408,6 +420,9 @@ def _wrap_rule_assert():
         self.__dict__["_pta_last_event"] = ev
         try:
             judge_module_rule(ev)
+            from . import monitors_trace
+
+            monitors_trace.judge_rule_eval(self, ev)
         except Exception as e:  # a crashing judge must never look like a pass
             HUB.acc.mark_inconclusive(f"judge_module_rule crashed: {type(e).__name__}: {e}")
         if exc is not None:
@@ -470,5 +485,8 @@ def install() -> Hub:
     from . import monitors_more
 
     monitors_more.install(HUB)
+    from . import monitors_trace
+
+    monitors_trace.install()
     HUB.installed = True
     return HUB
